@@ -35,7 +35,7 @@ tvars == <<dur, pend, gens, hist, done, ack, fl, now, conf, l, cflags, real, sna
 Rec == ndJsonDeserialize(IOEnv.TRACE)
 Ev == Rec[l]
 Keys == 1 .. conf.nk
-NoReal == [on |-> FALSE, units |-> {}, torn |-> {}, ok |-> TRUE, err |-> "", kv |-> <<>>, len |-> 0, extra |-> 0, now |-> 0,
+NoReal == [on |-> FALSE, units |-> {}, torn |-> {}, memok |-> TRUE, ok |-> TRUE, err |-> "", kv |-> <<>>, len |-> 0, extra |-> 0, now |-> 0,
            at |-> <<>>, free |-> {}]
 NoSnap == [on |-> FALSE, recs |-> <<>>, free |-> <<>>, usage |-> 0, len |-> 0]
 
@@ -176,6 +176,7 @@ TRec == /\ Ev.e = "rec"
         /\ real' = [on |-> TRUE,
                     units |-> {<<Ev.units[i][1], Ev.units[i][2]>> : i \in 1 .. Len(Ev.units)},
                     torn |-> {<<Ev.torn[i][1], Ev.torn[i][2]>> : i \in 1 .. Len(Ev.torn)},
+                    memok |-> Ev.res.memok,
                     ok |-> Ev.res.ok, err |-> Ev.res.err,
                     kv |-> [k \in Keys |-> Ev.res.kv[k]], len |-> Ev.res.len, extra |-> Ev.res.extra,
                     now |-> Ev.now,
@@ -232,6 +233,7 @@ FlagsOf(d, p, gs, hs, ak, t, cf) ==
 
 Changes == IF conf'.cc = 3 THEN FALSE                             \* only what the real recovery returned
            ELSE IF conf'.cc = 2 THEN Ev.e \in {"image", "fsync"}      \* durable states only
+           ELSE IF conf'.cc = 4 THEN Ev.e \in {"flush_end", "drop_end", "settled"} \/ (Ev.e = "w" /\ Ev.w.kind = "j")
            ELSE IF conf'.cc = 1 THEN Ev.e \in {"init", "image", "crash", "adopt", "call", "tick", "w", "fsync", "flush_end", "drop_end", "settled"}
            ELSE Ev.e \in {"flush_end", "drop_end", "settled"}
 TNext == /\ l <= Len(Rec) /\ l' = l + 1
@@ -254,6 +256,9 @@ RealOpens == real.on => real.ok
 RealWindow == (real.on /\ real.ok) => \A k \in Keys : real.kv[k] >= 0 /\ Exposable(k, real.kv[k], real.now)
 RealNoGhost == (real.on /\ real.ok) => (real.extra = 0 /\ \A k \in Keys : real.kv[k] # -1)
 RealCount == (real.on /\ real.ok) => real.len = Cardinality({k \in Keys : real.kv[k] # 0}) + real.extra
+\* C13: after recovery memory_usage() equals the sum over the recovered records of
+\* (record overhead + key length + value length)   (both sides read from the recovered store)
+RealMem == (real.on /\ real.ok) => real.memok
 \* C05: a store obtained by recovery from a crash image is exactly partitioned too
 RealPartition ==
   (real.on /\ real.ok /\ \A k \in Keys : real.kv[k] >= 0) =>
